@@ -238,7 +238,9 @@ func (m *Map[K, V]) Load(key K) (value V, ok bool) {
 		var zero V
 		return zero, false
 	}
-	return value_.(V), ok
+	// Two-value assertion: a nil value of an interface type V is stored as a nil interface{}.
+	value, _ = value_.(V)
+	return value, ok
 }
 func (m *Map[K, V]) LoadAndDelete(key K) (value V, loaded bool) {
 	value_, ok := m.m.LoadAndDelete(key)
@@ -246,15 +248,19 @@ func (m *Map[K, V]) LoadAndDelete(key K) (value V, loaded bool) {
 		var zero V
 		return zero, false
 	}
-	return value_.(V), ok
+	value, _ = value_.(V)
+	return value, ok
 }
 func (m *Map[K, V]) LoadOrStore(key K, value V) (actual V, loaded bool) {
 	actual_, loaded := m.m.LoadOrStore(key, value)
-	return actual_.(V), loaded
+	actual, _ = actual_.(V)
+	return actual, loaded
 }
 func (m *Map[K, V]) Range(f func(key K, value V) bool) {
 	m.m.Range(func(key, value interface{}) bool {
-		return f(key.(K), value.(V))
+		k, _ := key.(K)
+		v, _ := value.(V)
+		return f(k, v)
 	})
 }
 func (m *Map[K, V]) Store(key K, value V) {
